@@ -14,6 +14,9 @@ from .. import treecheck
 from ..treeprop import DROP_ASC, DROP_DESC, GC_DROP, HOLD_ASC, HOLD_DESC, TreeProp
 
 QUICK = [
+    ("S7", DROP_ASC, 1, "DELCORE"),
+    ("S8", DROP_ASC, 1, "DELCORE"),
+    ("S8", HOLD_DESC, 1, "DELCORE"),
     ("S4", DROP_ASC, 1, "DEL"),
     ("S4", DROP_ASC, 2, "DELCORE"),
     ("S4r", HOLD_DESC, 1, "DEL"),
@@ -21,6 +24,9 @@ QUICK = [
     ("S1", DROP_ASC, 2, "DEL"),
 ]
 THOROUGH = [
+    ("S7", DROP_ASC, 2, "DELCORE"),
+    ("S8", DROP_ASC, 2, "DELCORE"),
+    ("S8", HOLD_DESC, 2, "DELCORE"),
     ("S4", DROP_ASC, 2, "DEL"),
     ("S4", HOLD_DESC, 2, "DEL"),
     ("S4", DROP_DESC, 3, "DELCORE"),
